@@ -230,7 +230,7 @@ class PropCheck:
         if more:
             res.update(run_both(more))
             cases = cases + more
-        if self.release_too or self.tier == "thorough":
+        if (self.release_too or self.tier == "thorough") and not runner.HANGS["confirmed"]:
             res_rel = runner.run_cases([c.impl_line() for c in cases], release=True, want_model=False)
         else:
             res_rel = None
@@ -238,6 +238,10 @@ class PropCheck:
         nontrivial_keys = set()
         for c in cases:
             ans = res.get(c.id, {})
+            if (ans.get("I") or [None])[0] == "SKIPPED_AFTER_HANGS" or (res_rel is not None and (res_rel.get(c.id, {}).get("I") or [None])[0] == "SKIPPED_AFTER_HANGS"):
+                # the shard of this case was abandoned after three confirmed hangs (each of them is reported): nothing is claimed
+                self.count("skipped_after_hangs")
+                continue
             if res_rel is not None:
                 ri = res_rel.get(c.id, {}).get("I")
                 if ri != ans.get("I") and not self.release_may_differ(c, ans.get("I"), ri):
@@ -282,6 +286,8 @@ class PropCheck:
             try:
                 if v.noshrink:
                     raise RuntimeError("no shrinking for cross-case verdicts")
+                if (ans.get("I") or [None])[0] == "TIMEOUT":
+                    raise RuntimeError("a hanging case is reported as it is: every smaller candidate that hangs too costs a confirmation")
                 sig0 = (v.detail or "")[:24]
                 small = self.shrink(c, lambda cc, aa: (lambda vv: vv.status == "violation" and (vv.detail or "")[:24] == sig0)(self.judge(cc, aa)))
                 sans = run_both([small]).get(small.id, ans)
